@@ -204,7 +204,7 @@ def r2_array_layout(ctx):
     else:
         it = norm(loop[0].iter)
         ok = (rev and it == "size") or (not rev and it in ("reversed(size)", "size[::-1]"))
-        ctx.check(ok, CF + "export_rust.py", "ExportConfigRust.parse", "the nested array type is built innermost extent first", detail={"reverse": rev, "loop": it},
+        ctx.form(ok, CF + "export_rust.py", "ExportConfigRust.parse", "the nested array type is built innermost extent first", detail={"reverse": rev, "loop": it},
                   expected="[[T; inner]; outer]")
     # Fortran: column-major compensation
     fn = ctx.fn(CF + "export_fortran.py", "ExportConfigFortran.parse")
@@ -230,7 +230,20 @@ def r3_quoting(ctx):
     for lang, f, q in sites:
         fn = ctx.fn(CF + f, q)
         quoted = []
-        for v in ast.walk(fn):
+        # quoting sites are looked for in the *resolved* expressions of every path, so that a temporary holding the
+        # escaped text (`escaped = self._escape(v); return '"' + escaped + '"'`) is seen through
+        from ..flowexpr import paths as _paths
+        seen_txt = set()
+        cands = []
+        for q_ in _paths(fn):
+            for e in q_.events:
+                if e.resolved is None:
+                    continue
+                for v in ast.walk(e.resolved):
+                    if isinstance(v, (ast.JoinedStr, ast.BinOp)) and norm(v) not in seen_txt:
+                        seen_txt.add(norm(v))
+                        cands.append(v)
+        for v in cands:
             if not isinstance(v, (ast.JoinedStr, ast.BinOp)):
                 continue
             s = norm(v)
@@ -290,7 +303,7 @@ def r5_naming_selection(ctx):
         ctx.check(ren == ["name = self._rename(name)"], CF + f, q, "the parameter name is mapped exactly once before it is emitted", detail=ren)
     rn = ctx.fn(CF + "export.py", "ExportConfig._rename")
     s = norm(rn).replace("\n", " ")
-    ctx.check("if self.rename: return name.upper().replace(Sign.SEPARATOR, '_') else: return name" in s, CF + "export.py", "ExportConfig._rename",
+    ctx.form("if self.rename: return name.upper().replace(Sign.SEPARATOR, '_') else: return name" in s, CF + "export.py", "ExportConfig._rename",
               "documented mapping: upper case, dots to underscores; identity when renaming is off")
     sel = ctx.fn(CF + "export.py", "ExportConfig.select")
     b = [norm(x) for x in K.body_nodoc(sel)]
